@@ -151,6 +151,10 @@ class Spec(object):
     def nontrivial(self, cfg, res):
         return "reneged_record" in res.flags or "baulk_considered" in res.flags or "baulked" in res.flags
 
+    def explicit_families(self, tier):
+        # complete state-space closure of the shared small networks (the monitor judges every transition of the graph)
+        return [explicit_small("renege")] + (explicit_basic(tier) if tier != "quick" else [])
+
     def families(self, tier):
         from .. import universal
         return focused(tier) + universal.subset(tier, ["renege", "baulk", "jockey"])
